@@ -169,10 +169,10 @@ def main(argv):
         ck.coq_gates(["C27"], THEOREMS, "EV.C27.Props")
     if bins:
         if ok or os.path.exists(os.path.join(COQ, "theories/C27/Corr.vo")):
-            correspondence(ck, bins["c27"], ck.scale(110, 1200), corpus)
+            correspondence(ck, bins["c27"], ck.scale(110, 800), corpus)
         if ck.broken:
             ck.deep = True
-        search(ck, bins["c27"], ck.scale(150, 3000), corpus)
+        search(ck, bins["c27"], ck.scale(150, 1800), corpus)
     ck.finish(
         trusted_base=TRUSTED,
         rule="histories of 2-10 notifications sent without waiting to one real server over 1-3 fresh documents (in the workspace and not on "
